@@ -26,6 +26,9 @@ def decimalLength17 (v : Nat) : Nat :=
 
 def digitChar (d : Nat) : Char := Char.ofNat (48 + d)
 
+/-- `'0' ≤ c ≤ '9'` -/
+def isDigitC (c : Char) : Bool := 48 ≤ c.toNat && c.toNat ≤ 57
+
 /-- decimal digits of `n`, most significant first, at most `fuel` of them -/
 def natDigitsF : Nat → Nat → List Char
   | 0, _ => []
